@@ -249,6 +249,18 @@ def mustpass(ctx, col):
                                for s in ifs[0].body for c in ast.walk(s))
     col.check(ok, "R-MUSTPASS", d.qualname, d.loc(), "re-rooting with sort=True renumbers", "",
               "`if sort:` does not call _sort_tree", stmt="redirect-sort")
+    if ok:
+        # ... on EVERY path: no return is reachable without passing the `if sort:` decision (an early return for a special case --
+        # "the node already is the root" -- hands back a tree that was asked to be renumbered and is not)
+        g = ctx.cfg(d)
+        rets = [n for n in g.nodes if n.kind == "stmt" and isinstance(n.ast, ast.Return)]
+        for rn in rets:
+            inside = any(x is rn.ast for s_ in ifs[0].body for x in ast.walk(s_))
+            through = g.must_pass(g.entry, [rn], lambda n: n.ast is ifs[0] or (n.ast is not None and n.ast is ifs[0].test), edge_ok=lambda a, b, l: l != "exc")
+            col.check(bool(inside or through), "R-MUSTPASS", d.qualname, d.loc(rn.ast), f"`{norm_src(rn.ast)[:50]}` is reached through the `if sort:` decision",
+                      "", f"`{norm_src(rn.ast)[:50]}` can be reached without passing `if sort: _sort_tree(...)`: with sort=True (the default) that path "
+                      f"returns a tree that is not renumbered (root not at 0 / a parent after its child when the input was not sorted)",
+                      stmt="redirect-sort-path", definite=True)
 
 
 # ------------------------------------------------------------------ R-WRITESET
